@@ -95,8 +95,8 @@ func TestVerifBounded_C15_HTTPCancel(t *testing.T) {
 				}
 				select {
 				case <-done:
-				case <-time.After(1500 * time.Millisecond):
-					fail(what, "ServeHTTP has not returned after 1.5s: the request blocks although its context is cancelled")
+				case <-time.After(5 * time.Second):
+					fail(what, "ServeHTTP has not returned after 5s: the request blocks although its context is cancelled")
 					cancel()
 					continue
 				}
